@@ -13,36 +13,54 @@ from check import Result
 
 META = {
     'level_text': 'Theorems for every class description, every configuration and every datatype oracle: config_applied '
-                  '(an accepted configuration shows on the instance: datatype = class datatype with the configured overrides '
-                  'applied in order, start value = conversion of the configured value by that FINAL datatype, configured own '
-                  'properties stored), writes_once_before_poll (every configured or class-level value of a parameter with a '
-                  'write method is handed to it exactly once, before the first poll; nothing else is written), rejected_whole '
-                  '(unknown name, unknown / ill-typed parameter property, ill-typed value or default, ill-typed module '
-                  'property, missing mandatory property, missing needscfg value, inverted limits => error list non-empty, and '
-                  'createNode registers no such module), errors_complete (every failing module is reported, a module is '
-                  'registered xor reported, the node starts iff nothing is reported), merge_first_wins (load_config keeps, for '
-                  'each name, the definition of the first file that has it, records the origin for merged-in modules and lists '
-                  'names occurring in several files as ambiguous).  rejected_whole is proved for parameters with an own datatype; '
-                  'derived Limit parameters are a recorded finding (their cfg is silently ignored).  The model is tied to '
-                  'frappy/modulebase.py, params.py, properties.py, secnode.py, config.py by a correspondence run over generated '
-                  '(class, cfg) pairs through the real SecNode / load_config, and the Lean monitors judge every observed record.',
+                  '(an accepted configuration shows on the instance: datatype = class datatype - for a Limit parameter the '
+                  'datatype derived from its base - with the configured overrides applied in order, start value = conversion of '
+                  'the configured value by that FINAL datatype, configured own properties stored), modprops_applied (the value '
+                  'configured for a module property - bare, Param(v) or dict - converted by the property datatype is the value '
+                  'of the instance), writes_once_before_poll (every configured or class-level value of a parameter with a '
+                  'write method is handed to it exactly once, before the first poll, for every write oracle incl. common write '
+                  'handlers; nothing else is written), rejected_whole (unknown name, unknown key in a module-property dict, '
+                  'unknown / ill-typed parameter property, ill-typed value or default, ill-typed module property, missing '
+                  'mandatory property, missing needscfg value, inverted limits, derived Limit parameters included => error '
+                  'list non-empty), optional_skipped / optional_cfg_rejected (the constructor loop over `accessibles` with '
+                  'its `continue` for optional, not implemented accessibles is the loop over the implemented ones and never '
+                  'takes their cfg entry out of cfgdict: such an entry is reported), errors_complete (every failing module '
+                  'is reported, a module is registered xor reported, the node starts iff nothing is reported), dsl_faithful '
+                  '(the dict Mod(name, cls, description, args...) builds - Param.__init__ with its Undef sentinel, wrapping of '
+                  'bare values, the Group loop - is the configuration the written text stands for) and its corollary '
+                  'written_config_rejected (an error written in the file, e.g. p=None, is rejected), merge_first_wins / '
+                  'file_last_wins (load_config keeps, for each name, the definition of the first file that has it, records the '
+                  'origin for merged-in modules and lists names occurring in several files as ambiguous).  The hypotheses of '
+                  'the theorems (WellFormed class description, well-written Mod arguments) are checked by Lean on every case '
+                  '(wellFormedB_sound, writtenOkB_sound).  The model is tied to frappy/modulebase.py, params.py, properties.py, '
+                  'secnode.py, config.py by a correspondence run over generated (class, cfg) pairs through the real SecNode / '
+                  'process_file / load_config (streams: module, node, merge, dict built by Mod(...), configuration left '
+                  'unchanged by a start), and the Lean monitors judge every observed record - for config files against the '
+                  'configuration AS WRITTEN, for every module of every start (a clean node is started twice from the same '
+                  'loaded configuration).',
     'level_note': 'Trusted: Lean kernel + axioms propext/Classical.choice/Quot.sound; datatypes are oracles in the theorems '
                   '(laws assumed: none beyond totality; the driver instance for double/int/string/bool/enum/array/tuple on a '
-                  'quarter grid is checked by the correspondence run only); the config DSL is executed Python, only the '
-                  'resulting dictionaries are modelled; error texts are classified by the harness.',
+                  'quarter grid is checked by the correspondence run only); the text of a config file is executed Python - '
+                  'the harness writes the text from the argument lists it sends to Lean; error texts are classified by the '
+                  'harness.  That a start does not alter the loaded configuration (Python aliasing) is outside the pure model: '
+                  'it is observed (correspondence stream) and its consequences are judged on the second start and on modules '
+                  'sharing one Param object.',
     'trusted': [
         'harness classification of error texts into kinds (by the entry they mention)',
         'concrete datatype instance of the driver (FrappyModel/Klass/ConfigDT.lean): exercised, not proved against datatypes.py',
         'values on a quarter grid: binary64 represents them exactly and the relative tolerance of FloatRange.validate never bridges a step',
+        'rendering of the generated argument lists as Python text (repr) and its parsing by exec',
     ],
     'modelled_not_verified': [
-        'exec of the config file text (config.py:process_file); only Mod/Param dictionaries are modelled',
+        'exec of the config file text (config.py:process_file); Mod/Param/Group calls are modelled, arbitrary Python in a file is not',
         'Parameter.finish for `constant`, applyMainUnit ($ units), Command accessibles in the cfg, `datatype` given in the cfg',
         'mandatory properties of Parameter objects (description/datatype): always present in generated classes',
         'Server._processCfg sys.exit(1): observed as "SecNode.errors non-empty" (subprocess run in thorough tier)',
+        'Server.restart: observed as a second SecNode built from the same module_cfg objects (what _processCfg does)',
     ],
     'assumptions': ['configuration dicts have unique keys (Python dict)',
-                    'base parameters of Limit parameters precede them and have a datatype'],
+                    'base parameters of Limit parameters precede them and have a datatype',
+                    'a start only reads the loaded configuration (checked by observation on every case)'],
 }
 
 GENMOD = 'frappy_verifc10gen'
@@ -535,7 +553,7 @@ def gen_param_cfg(rng, p, force_value=False):
     return items
 
 
-ERR_KINDS = ['optional_not_implemented', 'prop_extra_key', 'unknown_name', 'unknown_param_prop', 'bad_value', 'bad_param_prop', 'bad_mod_prop', 'missing_mandatory',
+ERR_KINDS = ['bad_cmd_prop', 'optional_not_implemented', 'prop_extra_key', 'unknown_name', 'unknown_param_prop', 'bad_value', 'bad_param_prop', 'bad_mod_prop', 'missing_mandatory',
              'missing_needscfg', 'inverted', 'bad_default']
 
 
@@ -545,6 +563,19 @@ def inject(rng, spec, cfg, kind):
     if kind == 'unknown_name':
         k = rng.choice(['zz', 'pq', 'Value', 'targett'])
         cfg[k] = rng.choice([('bare', 1), ('dict', [('value', 2)]), ('dict', [('max', 2)])])
+        return kind
+    if kind == 'bad_cmd_prop':
+        cmds = commands_of(spec)
+        if not cmds:
+            return None
+        cname = rng.choice(cmds)
+        ent = cfg.get(cname)
+        items = list(ent[1]) if ent and ent[0] == 'dict' else []
+        k, v = rng.choice([('nosuch', 1), ('unit', 's'), ('readonly', True), ('value', 1), ('visibility', 'nonsense'),
+                           ('visibility', None), ('visibility', 9), ('group', 5), ('description', 7)])
+        items = [kv for kv in items if kv[0] != k]
+        items.insert(rng.randint(0, len(items)), (k, v))
+        cfg[cname] = ('dict', items)
         return kind
     if kind == 'optional_not_implemented':
         cands = [o for o in spec.get('optional', []) if not o['impl']]
@@ -652,6 +683,10 @@ def inject(rng, spec, cfg, kind):
     return kind
 
 
+def commands_of(spec):
+    return (['go'] if spec['cmd'] else []) + [o['name'] for o in spec.get('optional', []) if o['kind'] == 'cmd' and o['impl']]
+
+
 def gen_module_cfg(rng, spec, nerr):
     """-> (cfg dict name -> entry, injected kinds)"""
     cfg = {'description': ('bare', 'module of ' + spec['id'])}
@@ -672,6 +707,12 @@ def gen_module_cfg(rng, spec, nerr):
             items = gen_param_cfg(rng, p, force_value=p['needscfg'] or (ingroup and rng.random() < 0.8))
             if items:
                 cfg[p['name']] = ('dict', items)
+    for cname in commands_of(spec):
+        if rng.random() < 0.35:
+            items = [kv for kv in [('visibility', rng.choice(['expert', 'advanced', 2, 1])), ('group', 'cgrp'),
+                                   ('description', 'cfg text of ' + cname)] if rng.random() < 0.5]
+            rng.shuffle(items)
+            cfg[cname] = ('dict', items)
     kinds = []
     for _ in range(nerr):
         k = inject(rng, spec, cfg, rng.choice(ERR_KINDS))
@@ -758,6 +799,9 @@ def decorate_dsl(rng, case):
     specs = {sp['id']: sp for sp in case['specs']}
     nvar = 0
     for mo in case['mods']:
+        for k, f in mo['dsl']:
+            if 'param' in f and k in commands_of(specs[mo['cls']]) and rng.random() < 0.7:
+                f['ctor'] = 'Command'                      # `Command` is the same class as `Param` in a config file
         pnames = {p['name'] for p in specs[mo['cls']]['params']}
         if rng.random() < 0.2:
             cands = [k for k, f in mo['dsl'] if k in pnames and 'group' not in f]
@@ -796,7 +840,7 @@ def dsl_param_text(f):
             kws.append(f'value={val["v"]!r}')
         else:
             kws.insert(0, repr(val['v']))
-    return 'Param(' + ', '.join(kws) + ')'
+    return f.get('ctor', 'Param') + '(' + ', '.join(kws) + ')'
 
 
 def dsl_mod_text(name, clsname, desc, forms, tag):
@@ -845,7 +889,7 @@ def written_cfg(desc, forms, tag, extra):
 # ----------------------------------------------------------------------------------------
 RX = [
     (re.compile(r"^(\w+): value .* does not match "), lambda m: {'k': 'badModProp', 'key': m.group(1)}),
-    (re.compile(r"^(\w+)\.(value|default|constant): "), lambda m: {'k': 'badValue', 'param': m.group(1), 'key': m.group(2)}),
+    (re.compile(r"^(\w+)\.(\w+): "), lambda m: {'k': 'badValue', 'param': m.group(1), 'key': m.group(2)}),
     (re.compile(r"^limit '(\w+)' is given, but not"), lambda m: {'k': 'limitNoBase', 'param': m.group(1)}),
     (re.compile(r"^(\w+) needs a datatype"), lambda m: {'k': 'noDatatype', 'param': m.group(1)}),
     (re.compile(r"^'(\w+)' has no default value and was not given in config"), lambda m: {'k': 'needsCfg', 'param': m.group(1)}),
@@ -1189,12 +1233,17 @@ def lean_obs(o):
             'modprops': o['modprops'], 'events': o['events'], 'driver': o['driver']}
 
 
-def compare_module(model, obs):
+def compare_module(model, obs, cmds=()):
     """obs-level differences between the model's answer and the implementation (list of strings)"""
     diffs = []
     if model['ok'] != obs['registered']:
         diffs.append(f'registered: model {model["ok"]} impl {obs["registered"]}')
-    if model['errors'] != obs['errors']:
+    cmds = set(cmds)
+
+    def split(errs):
+        c = [e for e in errs if (e.get('name') if e['k'] == 'unknownProp' else e.get('param') if e['k'] == 'badValue' else None) in cmds]
+        return [e for e in errs if e not in c], c
+    if split(model['errors']) != split(obs['errors']):
         diffs.append(f'errors: model {model["errors"]} impl {obs["errors"]}')
     if model['ok'] and obs['registered']:
         inst = model['inst']
@@ -1433,7 +1482,7 @@ def run(ctx):
                 'through 1-3 merged config files written with the DSL (Mod / Param(v, k=..) / bare value / Group / one Param '
                 'object bound to a variable and used by several modules), any subset configured, values inside/at/outside '
                 'limits, overrides of min/max/unit/visibility/export/readonly/group/description in any key order, 0-4 '
-                'injected errors of 11 kinds; a node without configuration error is started a second time from the same '
+                'injected errors of 12 kinds (commands configured, too); a node without configuration error is started a second time from the same '
                 'loaded configuration; non-trivial = a module that is registered with at least one configured parameter '
                 'entry, or rejected with an injected error')
     rng = ctx.rng
@@ -1523,7 +1572,7 @@ def run(ctx):
             if any(e['k'] == 'other' for e in obs['errors']):
                 res.disagreements.append({'case': modcase, 'model': 'error text not classified', 'impl': obs['errors']})
             elif ctx.model_ok:
-                diffs = compare_module(model, obs) if model.get('loads', True) else ['model: the file does not load']
+                diffs = compare_module(model, obs, mo['cls']['other']) if model.get('loads', True) else ['model: the file does not load']
                 if mo.get('dsl') and mo['gen'] == 1:
                     d = ans[mo['pos'] + 2]
                     mcfg = (d['cfg'] + mo['cfg']['extra']) if d['loads'] else None
